@@ -222,7 +222,7 @@ V(t) ==
                           [l |-> [j \in 1..t.n |-> [f |-> Zeros(t.w)]]]>>
     [] t.k = "null" -> <<None>>
     [] t.k = "llsd" -> <<[x |-> <<105, 0, 0, 0, 7>>], [x |-> <<91, 0, 0, 0, 2, 105, 0, 0, 0, 1, 115, 0, 0, 0, 1, 97, 93>>],
-                         [x |-> <<33>>], [x |-> <<115, 0, 0, 0, 2, 104, 105>>],
+                         [x |-> <<48>>], [x |-> <<115, 0, 0, 0, 2, 104, 105>>],
                          [x |-> <<123, 0, 0, 0, 1, 107, 0, 0, 0, 1, 107, 49, 125>>], [x |-> <<105, 0, 0>>]>>
     [] t.k = "bytearray" ->
          <<[b |-> <<>>], [b |-> <<0>>], [b |-> <<1, 255, 0>>]>>
